@@ -20,7 +20,15 @@ Monitors (P = postcondition at the real method, I = invariant, W = workload rela
                 filtered by end state; freely_reduced_elements vs free_words_*.
   images-exact  (W) exact-integer representations: returned matrices == exact
                 int64 products with exact inverses.
-Oracles: gtmon.ref.fsa_model / fsa_lang (numpy only).
+  history       (W) automata / free automata with a *history* of in-place edits
+                (add_edges, delete_vertices, rename, recurrent, ...): the result
+                == the accepting paths and images of the automaton the
+                (construction + edit script) denotes, kept as a plain set model
+                by the workload (not read back from the library's adjacency
+                views); every call's result count == the transfer-matrix path
+                count of that model; a newly requested free automaton is the free
+                automaton whatever happened to earlier ones.
+Oracles: gtmon.ref.fsa_model / fsa_lang / fsa_hist (numpy only).
 """
 import collections
 import re
@@ -31,8 +39,9 @@ import numpy as np
 from ..run import Workload
 from .. import attach, core
 from ..ref import fsa_lang as fl
+from ..ref import fsa_hist as fh
 from ..ref.fsa_model import Model
-from ..gen import fsa_build
+from ..gen import fsa_build, fsa_edit
 
 ID = "C06"
 RULE = ("cases = (automaton, representation class, option tuple (maxlen, with_words, "
@@ -44,7 +53,14 @@ RULE = ("cases = (automaton, representation class, option tuple (maxlen, with_wo
         "construction routes; every built-in .wa/.geowa file and free automata; "
         "multi-letter labels from automaton_multiple(2,3) (edge_words=True) and "
         "multi-character generator names (edge_words=False, and names that are also "
-        "words); representations: non-commuting non-symmetric float GL(2)/GL(3), exact "
+        "words); histories: automata from every route / built-in files / free automata "
+        "edited in place by 1-3 documented calls (new label between connected states, "
+        "list-of-labels form, new pair, new vertex, delete_vertex(ices), in-place rename, "
+        "in-place recurrent, redundant re-adds) before they are enumerated; free "
+        "automata requested from the library, edited in place, then freely reduced "
+        "enumeration on the same / a new / a different-class representation with the "
+        "same generator list (both call orders); "
+        "representations: non-commuting non-symmetric float GL(2)/GL(3), exact "
         "unimodular int64, ProjectiveRepresentation.  non-trivial = the automaton has "
         ">=1 edge and the expected set is non-empty; distinct = distinct (route, rep "
         "class, #states, #labels, features, mode, maxlen, with_words, edge_words, memo, "
@@ -63,6 +79,11 @@ ASSUMPTIONS = [
     "(docstring 'inclusive' vs the name and the code) is recorded, not judged",
     "free_words_* are judged for single-character generator names (they look at "
     "the last *character* of a word); other names are recorded only",
+    "an automaton with an edit history denotes the set model obtained by applying "
+    "the same documented edits to the model of its construction; scripts keep it "
+    "deterministic.  The history monitor judges only while the library's own label "
+    "view (graph_dict, what FSA.enumerate_words reads) equals that model; a "
+    "different label view is C09/C10's business and is skipped here",
 ]
 _R = "geometry_tools/representation.py"
 _F = "geometry_tools/automata/fsa.py"
@@ -70,7 +91,8 @@ ANCHORS = [(_R, "Representation." + q) for q in (
     "automaton_accepted", "_automaton_accepted", "freely_reduced_elements",
     "free_words_of_length", "free_words_less_than", "_word_value")] + [
     (_F, "free_automaton"), (_F, "FSA.enumerate_fixed_length_paths"),
-    (_F, "FSA.enumerate_words")]
+    (_F, "FSA.enumerate_words"), (_F, "FSA.add_edges"), (_F, "FSA.delete_vertex"),
+    (_F, "FSA._build_in_dict")]
 REQUIRED = [
     (_R, "Representation._automaton_accepted", "return precomputed[(length, state)]"),
     (_R, "Representation._automaton_accepted", "adj_states = automaton.out_dict[state]"),
@@ -276,6 +298,7 @@ def setup(run):
     free = run.monitor("free-reduced", min_events=10)
     run.monitor("agreement", min_events=20)
     run.monitor("images-exact", min_events=10)
+    run.monitor("history", min_events=20)
     mons = {"accepted-set": acc, "images": img}
     registry = []        # [dict object, option tuple or None (tainted), {key: fingerprint}]
 
@@ -647,12 +670,32 @@ def option_grid(M, rng, full):
 
 
 def drive(run, rng, F, M, rep, exact, L, full, edge_words_opts=(True, False),
-          memo_opts=("shared", "none"), single=True, tag="", sample=7):
-    """the option grid on one (automaton, representation)."""
+          memo_opts=("shared", "none"), single=True, tag="", sample=7, spec=None):
+    """the option grid on one (automaton, representation).  `M` is the
+    workload's own model of the automaton; `spec` (the class of the edit
+    history, e.g. 'parallel') asks for the history monitor: results are judged
+    against `M` itself and not against the library's adjacency views."""
     agree = run.monitor("agreement")
+    hist = run.monitor("history")
     dim = rep._dim
     modes = option_grid(M, rng, full)
     v0 = nviol(run)
+    # the workload's model is the reference of the W relations below only while
+    # the automaton's own label view (what FSA.enumerate_* read) says the same
+    try:
+        MF, _prob = fl.snapshot(F)
+    except Exception:
+        MF = None
+    spec_ok = MF is not None and MF.delta == M.delta and MF.vertices == M.vertices
+    TC = fh.Transfer(M) if spec_ok else None
+    JS = {}
+    if spec is not None and not spec_ok:
+        hist.skip("label view differs from the model of the edit history (C09/C10)")
+    gens_data = None
+    if spec is not None and spec_ok:
+        gens_data = {k: np.asarray(v) for k, v in rep.generators.items()}
+        if any(a.dtype == object for a in gens_data.values()):
+            gens_data = None
     feats = ",".join(sorted(fl.features({v: dict((l, w) for (u, l), w in M.delta.items() if u == v)
                                          for v in M.vertices}, M.starts[0])))
     for ew in edge_words_opts:
@@ -684,6 +727,44 @@ def drive(run, rng, F, M, rep, exact, L, full, edge_words_opts=(True, False),
                                       lambda: rep.automaton_accepted(F, n, **kw))
                             if nviol(run) != v0:
                                 raise Stop()
+                            if TC is not None:
+                                # independent path count: e_s^T (A^n | sum A^k) e_t of the
+                                # transfer matrix of the workload's model -- one matrix per
+                                # accepting path, with or without words, whatever the state of
+                                # the adjacency views (seeded change C06-r3-1: a label list
+                                # shared by the outgoing and incoming views gets a label
+                                # added through add_edges twice, and every word through that
+                                # edge comes back twice)
+                                s_from = M.starts[0] if m != "start" else s
+                                want_n = TC.count(n, s_from, exact=not maxlen,
+                                                  end=s if m == "end" else None)
+                                garr = raw_matrices(res[0] if (ww and isinstance(res, tuple)) else res)
+                                got_n = None if garr is None or garr.ndim != 3 else int(garr.shape[0])
+                                agree.require(got_n == want_n,
+                                              "agreement/vs-path-count/mode:%s/maxlen:%s" % (m, maxlen),
+                                              "automaton_accepted(length=%d, with_words=%s, edge_words=%s) "
+                                              "returned %r matrices; the automaton has %d accepting paths "
+                                              "(transfer-matrix count)" % (n, ww, ew, got_n, want_n))
+                                if gens_data is not None and TC.count(n, s_from) <= PATH_CAP:
+                                    # history monitor: words (once per accepting path) and images
+                                    # against the model the edit history denotes
+                                    J = JS.get(ew)
+                                    if J is None:
+                                        J = JS[ew] = Judge(M, gens_data, dim, ew,
+                                                           bool(getattr(rep, "parse_simple", True)))
+                                    if J.readable():
+                                        r = J.problems(res, ww, J.expected(m, s, n, maxlen))
+                                        if isinstance(r, tuple):
+                                            hist.fail("history/%s/%s/after:%s/mode:%s/maxlen:%s"
+                                                      % (r[0], r[1], spec, m, maxlen),
+                                                      "automaton_accepted(length=%d, with_words=%s, "
+                                                      "edge_words=%s, memo=%s) on an automaton edited in "
+                                                      "place: %s" % (n, ww, ew, memo_kind, r[2]),
+                                                      residual=r[3])
+                                        else:
+                                            hist.ok(r)
+                                if nviol(run) != v0:
+                                    raise Stop()
                             if M.delta:
                                 run.note_class(_ctx["route"], _ctx["rep"], len(M.vertices), feats, m,
                                                maxlen, ww, ew, memo_kind, n, tag)
@@ -996,6 +1077,189 @@ def wl_free_names(run, rng, idx):
         _ctx.update(route="ambient", rep="ambient")
 
 
+# ---------------------------------------------------------------------------
+# histories
+
+EDIT_BASES = fsa_build.ROUTES + ("loaded", "free")
+NB, NK = len(EDIT_BASES), len(fsa_edit.KINDS)       # coprime: idx % NB, idx % NK cover all pairs
+
+
+def apply_script(run, F, ops, mon="history"):
+    for op in ops:
+        lib(run, mon, "edit:" + op[0], lambda: fsa_edit.apply_lib(F, op))
+
+
+def wl_edited(run, rng, idx):
+    """an automaton (every construction route, built-in files, free automata)
+    that is *edited in place* through the documented FSA calls before it is
+    enumerated.  The reference is the plain model obtained by applying the same
+    script to the model of the construction -- not the library's adjacency
+    views, which are exactly what such histories can leave inconsistent while
+    the label view stays right.
+    (seeded change C06-r3-1: FSA._build_in_dict keeps the outgoing view's label
+    lists as the incoming view's entries; add_edges then appends a new label
+    between two already-connected states twice, and automaton_accepted returns
+    every word through that edge twice.)"""
+    fsa = fsa_build.fsamod()
+    base = EDIT_BASES[idx % NB]
+    primary = fsa_edit.KINDS[idx % NK]
+    kind = REP_KINDS[(idx // 2) % len(REP_KINDS)]
+    L = 4
+    if base == "loaded":
+        files = sorted(fsa.list_builtins())
+        name = files[(idx // NB) % len(files)]
+        F = fsa.load_builtin(name)
+        M0, _prob = fl.snapshot(F)
+        if M0 is None or len(M0.starts) != 1:
+            return run.monitor("history").skip("loaded automaton is not in the domain")
+        start = M0.starts[0]
+        labels = sorted({l for (_v, l) in M0.delta})
+        universe = sorted(set(labels) | {fl.swapcase_inverse(l) for l in labels})
+        if len(lower_names(labels)) > 4:
+            kind = "float2" if kind.startswith(("float", "proj")) else "int2"
+        desc = name
+    elif base == "free":
+        names = ["ab", "abc", "a", "xq"][(idx // NB) % 4]
+        F = fsa.free_automaton(list(names))
+        M0 = fh.free_model(list(names))
+        start = ""
+        labels = universe = fh.free_alphabet(list(names))
+        desc = "free:" + names
+    else:
+        alphabet = ALPHABETS[idx % 3]
+        d, start, labels = fl.random_automaton(rng, max_states=6, alphabet=alphabet)
+        M0 = Model.from_label_dict(d, [start])
+        F = None
+        universe = list(alphabet)
+        desc = {repr(v): {l: repr(w) for l, w in nb.items()} for v, nb in d.items()}
+    _ctx.update(route="edited-" + base, rep=kind)
+    ops, M, kinds = fsa_edit.plan(rng, M0, start, universe, primary, extra=int(rng.integers(0, 3)))
+    run.current_case = {"route": "edited-" + base, "rep": kind, "base": desc, "start": repr(start),
+                        "edits": fsa_edit.describe(ops)}
+    try:
+        if F is None:
+            F = lib(run, "accepted-set", "construct", lambda: fsa_build.build(base, d, start, rng))
+        MF, _prob = fl.snapshot(F)
+        if MF is None or MF.delta != M0.delta or MF.vertices != M0.vertices:
+            return run.monitor("history").skip("construction route did not give the specified automaton (C09)")
+        if not ops:
+            return run.monitor("history").skip("no edit applicable")
+        apply_script(run, F, ops)
+        rep, exact = make_rep(rng, kind, lower_names(list(universe) + list(labels)))
+        run.current_case["generators"] = {k: np.asarray(v) for k, v in rep.generators.items()}
+        cap = 400 if run.tier == "quick" else 1500
+        while L > 1 and fl.count_paths(M, L, start, PATH_CAP) > cap:
+            L -= 1
+        drive(run, rng, F, M, rep, exact, L, full=(idx % 6 == 0) and len(M.vertices) <= 8,
+              tag="edit:" + "+".join(kinds), sample=5, spec=kinds[0])
+        run.note_class("edited", base, "+".join(kinds), kind)
+    except Stop:
+        pass
+    finally:
+        _ctx.update(route="ambient", rep="ambient")
+
+
+FREE_EDITS = ("delete", "parallel", "rename", "recurrent", "parallel-elist", "new-vertex", "new-pair")
+
+
+def wl_free_history(run, rng, idx):
+    """call-order histories around the free-group automaton inside one process:
+    the caller asks the library for a free automaton on the generator list of
+    a representation (before or after a first freely_reduced_elements call),
+    edits *that object* in place (positive words by deleting the inverse
+    states, extra edges, in-place relabelling / pruning) and enumerates it;
+    afterwards freely_reduced_elements -- on the same representation, on a new
+    one with the same generator list and other matrices, on one of another
+    class -- still has to return every freely reduced word exactly once with
+    its image (postcondition monitor free-reduced, independent filtered-product
+    oracle), and a newly requested free automaton is again the free automaton.
+    (seeded change C06-r3-3: fsa.free_automaton hands out one cached FSA per
+    generator tuple, so an in-place edit of it is seen by every later freely
+    reduced enumeration on those letters.)"""
+    fsa = fsa_build.fsamod()
+    hist = run.monitor("history")
+    ngen = 1 + (idx // 2) % 3
+    names = (["a", "b", "c"] if (idx // 6) % 2 == 0 else ["x", "q", "m"])[:ngen]
+    if ngen == 1 and idx % 4 >= 2:
+        names = ["a", "b"]             # one generator: few edits are visible
+        ngen = 2
+    kind = REP_KINDS[(idx // 3) % len(REP_KINDS)]
+    primary = FREE_EDITS[idx % len(FREE_EDITS)]
+    first_call = idx % 2 == 0          # enumerate before the automaton is asked for?
+    form = (list, tuple, "".join)[(idx // 2) % 3]
+    Lq = {1: 4, 2: 3, 3: 3}[ngen]
+    _ctx.update(route="free-history", rep=kind)
+    run.current_case = {"route": "free-history", "rep": kind, "generators": names,
+                        "enumerate_first": first_call, "requested_as": getattr(form, "__name__", "str")}
+    try:
+        rep, exact = make_rep(rng, kind, names)
+        run.current_case["matrices"] = {g: np.asarray(v) for g, v in rep.generators.items()}
+        v0 = nviol(run)
+        if first_call:
+            lib(run, "free-reduced", "freely_reduced_elements",
+                lambda: rep.freely_reduced_elements(2, with_words=True))
+            if nviol(run) != v0:
+                raise Stop()
+        M0 = fh.free_model(names)
+        G = lib(run, "history", "free_automaton", lambda: fsa.free_automaton(form(names)))
+        MG, _prob = fl.snapshot(G)
+        hist.require(MG is not None and MG.delta == M0.delta and MG.vertices == M0.vertices
+                     and list(G.start_vertices) == [""],
+                     "history/free_automaton-not-free/first-request",
+                     "fsa.free_automaton(%r) is not the automaton of freely reduced words" % (names,))
+        if nviol(run) != v0:
+            raise Stop()
+        # the caller's own edits of the caller's own automaton
+        ops, M, kinds = fsa_edit.plan(rng, M0, "", fh.free_alphabet(names), primary,
+                                      extra=int(rng.integers(0, 2)), keep_start=False)
+        run.current_case["edits"] = fsa_edit.describe(ops)
+        apply_script(run, G, ops)
+        MG, _prob = fl.snapshot(G)
+        if MG is not None and MG.delta == M.delta and MG.vertices == M.vertices and "" in M.vertices:
+            drive(run, rng, G, M, rep, exact, Lq, full=False, edge_words_opts=(True,),
+                  memo_opts=("none",), tag="free-edit:" + "+".join(kinds), sample=4, spec=kinds[0])
+            _ctx.update(route="free-history", rep=kind)
+        # freely reduced enumeration afterwards: same representation, a new one of
+        # the same class with other matrices, one of another class
+        kind2 = REP_KINDS[(REP_KINDS.index(kind) + 1 + idx % 3) % len(REP_KINDS)]
+        reps = [("same", rep, exact)]
+        r2, e2 = make_rep(rng, kind, names)
+        reps.append(("new", r2, e2))
+        r3, e3 = make_rep(rng, kind2, names)
+        reps.append(("other-class", r3, e3))
+        for which, rp, ex in reps:
+            run.current_case["enumerating"] = which
+            for maxlen in (True, False):
+                for ww in (True, False):
+                    n = Lq if maxlen else Lq - 1
+                    res = lib(run, "free-reduced", "freely_reduced_elements",
+                              lambda: rp.freely_reduced_elements(n, maxlen=maxlen, with_words=ww))
+                    if nviol(run) != v0:
+                        raise Stop()
+                    if ww:
+                        exact_check(run, ex, res[0], res[1], rp._dim, "freely_reduced_elements")
+            run.note_class("free-history", which, "+".join(kinds), first_call, ngen)
+        # a newly requested free automaton
+        G2 = lib(run, "history", "free_automaton", lambda: fsa.free_automaton(list(names)))
+        M2, _prob = fl.snapshot(G2)
+        hist.require(M2 is not None and M2.delta == M0.delta and M2.vertices == M0.vertices
+                     and list(G2.start_vertices) == [""],
+                     "history/free_automaton-not-free/after:%s" % kinds[0],
+                     "after an earlier free automaton on the same letters was edited in place, "
+                     "fsa.free_automaton(%r) is not the automaton of freely reduced words" % (names,))
+        if nviol(run) != v0:
+            raise Stop()
+        own = lib(run, "history", "enumerate_words", lambda: list(G2.enumerate_words(Lq)))
+        want = collections.Counter(fl.concat(w) for w in fl.free_reduced_words(names, Lq))
+        hist.require(collections.Counter(own) == want,
+                     "history/free_automaton-language/after:%s" % kinds[0],
+                     "a newly requested free automaton does not enumerate the freely reduced words")
+    except Stop:
+        pass
+    finally:
+        _ctx.update(route="ambient", rep="ambient")
+
+
 WORKLOADS = [
     Workload("dense-sample", wl_dense_sample, quick=32, thorough=0),
     Workload("dense-all", wl_dense_all, quick=0, thorough=(DENSE_TOTAL + 7) // 8),
@@ -1005,5 +1269,7 @@ WORKLOADS = [
     Workload("builtin", wl_builtin, quick=20, thorough=100),
     Workload("free-group", wl_free, quick=9, thorough=120),
     Workload("free-group-names", wl_free_names, quick=2, thorough=8),
+    Workload("edited", wl_edited, quick=27, thorough=720),
+    Workload("free-history", wl_free_history, quick=14, thorough=210),
 ]
 EXHAUSTIVE = {"quick": False, "thorough": False}
